@@ -128,9 +128,9 @@ theorem step_PKeys {c : Cfg} {s s' : St} {e : Env} {op : Op} (hP : PKeys s) (h :
     obtain ⟨b1, _, h⟩ := bind_eq_ok h
     obtain ⟨b2, _, h⟩ := bind_eq_ok h
     obtain ⟨_, _, h⟩ := bind_eq_ok h
-    obtain ⟨b3, _, h⟩ := bind_eq_ok h
     obtain ⟨lp, _, h⟩ := bind_eq_ok h
     obtain ⟨_, _, h⟩ := bind_eq_ok h
+    obtain ⟨b3, _, h⟩ := bind_eq_ok h
     obtain ⟨b4, _, h⟩ := bind_eq_ok h
     obtain ⟨_, _, h⟩ := bind_eq_ok h
     obtain ⟨b5, _, h⟩ := bind_eq_ok h
